@@ -72,6 +72,7 @@ type c07case struct {
 	//  ctx-keys-reset  other context keys were registered and removed with ResetContextKeys before the final ones were registered
 	//  colliding-pairs the logger first logged with plain "key", value pairs that collide with every key of the chain and of the context
 	//  attrs-in-steps  every logger was given its own attributes one call at a time (SetAttrs, SetAttrs1, ... and Set for the last one)
+	//  ancestors-completed-later  every ancestor first has only the first half of its attributes; the logging logger logs once; then the ancestors are given the rest
 	//  groups-mutated  every group (own and call-site) was built with other members, printed once, then given its final members through SetValue/Add
 	Pre string `json:"pre,omitempty"`
 }
@@ -229,16 +230,28 @@ func c07emit(cas c07case) (payloads []string, pan string) {
 	if cas.Pre == "groups-mutated" {
 		mkAttr = func(a kv) slog.Attr { return kvAttrMut(a, &pend) }
 	}
+	type c07later struct {
+		l    *slog.Entry
+		rest []slog.Attr
+	}
+	var later []c07later
 	for d, own := range cas.Chain {
 		var attrs []slog.Attr
 		for _, a := range own {
 			attrs = append(attrs, mkAttr(a))
+		}
+		if cas.Pre == "ancestors-completed-later" && d < len(cas.Chain)-1 && len(attrs) > 0 {
+			later = append(later, c07later{nil, attrs[len(attrs)/2:]})
+			attrs = attrs[:len(attrs)/2]
 		}
 		name := fmt.Sprintf("l%d", d)
 		if d == 0 {
 			l = slog.VerifEntryOf(slog.New(name))
 		} else {
 			l = l.New(name)
+		}
+		if n := len(later); n > 0 && later[n-1].l == nil {
+			later[n-1].l = l
 		}
 		if cas.Pre == "attrs-in-steps" {
 			for i, a := range attrs {
@@ -339,6 +352,18 @@ func c07emit(cas c07case) (payloads []string, pan string) {
 		pan = catch(func() {
 			l.InfoContext(ctx, "pre", args...)
 			c07mutate(pend)
+		})
+		rec.reset()
+	case "ancestors-completed-later":
+		pan = catch(func() {
+			l.InfoContext(ctx, "pre", args...)
+			for i, lt := range later {
+				if i%2 == 0 {
+					lt.l.SetAttrs(lt.rest...)
+				} else {
+					lt.l.SetAttrs1(slog.Attrs(lt.rest))
+				}
+			}
 		})
 		rec.reset()
 	}
@@ -594,6 +619,9 @@ func ctxSets() []ctxSet {
 		{keys: []string{"s:ctxs"}, has: nil, nilCtx: true},
 		{keys: []string{"s:k6", "s:k5", "S:k4", "s:k3", "x:k2", "s:k1", "s:ctxs"}, has: []string{"s:k6", "s:k5", "S:k4", "s:k1", "s:ctxs", "x:k2"}},
 		{keys: []string{"s:zero", "S:zero"}, has: []string{"s:zero", "S:zero"}},
+		// a string key and a distinct Stringer key that print under the same name: both in the context (the later registered one
+		// wins), and only the later registered one in the context (it is still a registered key)
+		{keys: []string{"s:dup", "S:dup", "S:dup2", "s:dup2"}, has: []string{"s:dup", "S:dup", "s:dup2"}},
 	}
 }
 
@@ -629,7 +657,7 @@ func c07cases(thorough bool, emit func(c07case)) {
 				for si, cs := range ctxSets() {
 					// the full cross product is used for short chains; for longer chains
 					// the context sets rotate (every set still meets every chain shape class)
-					if len(ch) >= 3 && !thorough && si != ci%8 {
+					if len(ch) >= 3 && !thorough && si != ci%9 {
 						continue
 					}
 					for _, r := range []bool{false, true} {
@@ -638,7 +666,7 @@ func c07cases(thorough bool, emit func(c07case)) {
 							emit(cas)
 							seq++
 							if thorough || seq%3 == 0 || n == 0 {
-								cas.Pre = []string{"prior-records", "ctx-keys-reset", "groups-mutated", "colliding-pairs", "attrs-in-steps"}[(seq/3)%5]
+								cas.Pre = []string{"prior-records", "ctx-keys-reset", "groups-mutated", "colliding-pairs", "attrs-in-steps", "ancestors-completed-later"}[(seq/3)%6]
 								emit(cas)
 							}
 						}
